@@ -467,8 +467,9 @@ func (g *genCtx) genNotaryTx() *txSpec {
 	if w.bc.BlockHeight()+1 < w.notaryFrom {
 		return nil
 	}
-	for _, u := range w.users {
-		h := u.ScriptHash()
+	start := r.Intn(len(w.users))
+	for i := range w.users {
+		h := w.users[(start+i)%len(w.users)].ScriptHash()
 		d := g.st.deps[h]
 		if d == nil {
 			continue
@@ -478,11 +479,17 @@ func (g *genCtx) genNotaryTx() *txSpec {
 		if d.amount.Int64()-g.depSpent[h] < need {
 			continue
 		}
-		g.depSpent[h] += need
 		s := &txSpec{notary: true, nkeys: uint8(r.Range(0, 3)), signers: []util.Uint160{h}, sysFee: sys}
+		// spend the deposit exactly / all but one datoshi (only as the single payment from it in this block)
+		if g.depSpent[h] == 0 && d.amount.Int64() <= 20*gasUnit && r.Chance(1, 2) {
+			s.exhaust = 1 + r.Intn(2)
+			g.depSpent[h] = d.amount.Int64()
+		} else {
+			g.depSpent[h] += need
+		}
 		if r.Bool() {
 			s.calls = []*call{g.genCall([]util.Uint160{h}, nil, 0)}
-			if callFee(s.calls[0]) > 2*gasUnit {
+			if callFee(s.calls[0]) > 2*gasUnit || s.exhaust != 0 && d.amount.Int64() < 3*gasUnit {
 				s.calls = nil
 			}
 		}
@@ -496,10 +503,16 @@ func (w *world) randomBlock(o *hx.Out, k int) {
 	n := w.r.Weighted([]int{2, 5, 5, 3})
 	var specs []*txSpec
 	for i := 0; i < n; i++ {
-		if w.r.Chance(1, 8) {
+		if w.r.Chance(1, 6) {
 			if s := g.genNotaryTx(); s != nil {
 				specs = append(specs, s)
 				o.Count("tx:notary-assisted")
+				switch s.exhaust {
+				case 1:
+					o.Count("tx:notary-assisted-exact-deposit")
+				case 2:
+					o.Count("tx:notary-assisted-deposit-minus-1")
+				}
 				continue
 			}
 		}
